@@ -183,6 +183,17 @@ theorem c08_fix_anyOfShape (fs : List FieldDecl) (ss : List PyVal) :
     · simp [dialectFix, fixKws, kw, keyIs, fixListV]
 
 
+theorem c08_fix_elemWrap (f : FieldDecl) (s : PyVal) :
+    dialectFix (elemWrap f s) = elemWrap f (dialectFix s) := by
+  unfold elemWrap
+  split
+  · cases s <;> simp [dialectFix, fixKws, kw, keyIs, fixListV, fixList, nullSchema]
+  · rfl
+
+theorem c08_fixItemsV_wrap (f : FieldDecl) (s : PyVal) (h : dictOrNone s = true) :
+    fixItemsV (elemWrap f s) = elemWrap f (dialectFix s) := by
+  rw [c08_fixItemsV_shape _ (elemWrap_shape f s h), c08_fix_elemWrap]
+
 /-! ### the main induction: `dialectFix (emit false f) = emit true f` for every declaration -/
 
 mutual
@@ -197,19 +208,19 @@ theorem c08_fix_emit : ∀ f : FieldDecl, dialectFix (emit false f) = emit true 
   | .seqAny _ sz => by simp only [emit, dialectFix, c08_fix_arrKws_none, Option.map]
   | .seqOf _ f sz => by
     simp only [emit, dialectFix, c08_fix_arrKws_none, Option.map,
-      c08_fixItemsV_shape _ (emit_shape false f), c08_fix_emit f]
+      c08_fixItemsV_wrap f _ (emit_shape false f), c08_fix_emit f]
   | .seqPos _ fs addl sz => by
-    simp only [emit, dialectFix, c08_fix_arrKws, Option.map, fixItemsV, c08_fix_emitL fs]
+    simp only [emit, dialectFix, c08_fix_arrKws, Option.map, fixItemsV, c08_fix_emitLW fs]
   | .setAny _ sz => by simp only [emit, dialectFix, c08_fix_setKws, Option.map]
   | .setOf _ f sz => by
     simp only [emit, dialectFix, c08_fix_setKws, Option.map,
-      c08_fixItemsV_shape _ (emit_shape false f), c08_fix_emit f]
+      c08_fixItemsV_wrap f _ (emit_shape false f), c08_fix_emit f]
   | .tupleOf f u => by
     simp only [emit, dialectFix, c08_fix_arrKws_none, Option.map,
-      c08_fixItemsV_shape _ (emit_shape false f), c08_fix_emit f]
-  | .tuplePos fs u => by simp only [emit, dialectFix, c08_fix_tupKws, c08_fix_emitL fs]
+      c08_fixItemsV_wrap f _ (emit_shape false f), c08_fix_emit f]
+  | .tuplePos fs u => by simp only [emit, dialectFix, c08_fix_tupKws, c08_fix_emitLW fs]
   | .mapAny sz => by simp only [emit, dialectFix, c08_fix_mapKws, Option.map]
-  | .mapOf k v sz => by simp only [emit, dialectFix, c08_fix_mapKws, Option.map, c08_fix_emit v]
+  | .mapOf k v sz => by simp only [emit, dialectFix, c08_fix_mapKws, Option.map, c08_fix_elemWrap, c08_fix_emit v]
   | .struct c fields defaults => by
     simp only [emit]
     split
@@ -224,6 +235,9 @@ theorem c08_fix_emit : ∀ f : FieldDecl, dialectFix (emit false f) = emit true 
 theorem c08_fix_emitL : ∀ fs : List FieldDecl, fixList (emitL false fs) = emitL true fs
   | [] => rfl
   | f :: fs => by simp only [emitL, fixList, c08_fix_emit f, c08_fix_emitL fs]
+theorem c08_fix_emitLW : ∀ fs : List FieldDecl, fixList (emitLW false fs) = emitLW true fs
+  | [] => rfl
+  | f :: fs => by simp only [emitLW, fixList, c08_fix_elemWrap, c08_fix_emit f, c08_fix_emitLW fs]
 theorem c08_fix_emitP : ∀ ps : List (String × FieldDecl), fixFields (emitP false ps) = emitP true ps
   | [] => rfl
   | (n, f) :: ps => by simp only [emitP, fixFields, c08_fix_emit f, c08_fix_emitP ps]
